@@ -70,7 +70,8 @@ func init() {
 		sw, done := newSweeper(t, "c19")
 		defer done()
 		var mu sync.Mutex
-		for _, seed := range allSeeds(tier) {
+		// (with a string literal terminal holding bytes that are not UTF-8: the markdown path must not re-encode the file)
+		for _, seed := range append(allSeeds(tier), gram.Seed{Name: "strlit-not-utf8", Text: "a : 'a' ;\nS : a \"x\xc3\" | \"\xff\" S ;\n"}) {
 			toks, err := gram.Lexemes(seed.Text)
 			if err != nil {
 				ev.Inconsistent("seed %s: %v", seed.Name, err)
